@@ -86,7 +86,7 @@ var plans = map[string]Plan{
 	"C14": {Jobs: []Job{{World: "wbuild", Params: "max_targets=6", Share: 0.6}, {World: "wbuild", Params: "load=minimal,max_targets=6", Share: 0.15}, {World: "wbuild", Params: "mode=faults,load=minimal,max_targets=4,force=timeouts+extfail+checks", Share: 0.25}, {World: "wbuild", Params: "max_targets=10,long=1", Share: 0.25, ThoroughOnly: true}}, Level: "exploration", Rule: buildRule + " C14: targets that exit non-zero, time out on the fake clock, omit a declared output or fail an output check are never reported successful; a failing check forces execution although a cached result exists.",
 		Real: realBuild, Stub: stubBuild, Assume: buildAssume, QuickS: 45, ThoroughS: 900},
 	"C03": {
-		Jobs:  []Job{{World: "wdag", Params: "max_n=400", Share: 0.4}, {World: "wbuild", Params: "max_targets=6", Share: 0.3}, {World: "wbuild", Params: "load=minimal,max_targets=6", Share: 0.1}, {World: "wbuild", Params: "mode=faults,load=minimal,max_targets=5", Share: 0.2}, {World: "wbuild", Params: "max_targets=10,long=1", Share: 0.25, ThoroughOnly: true}},
+		Jobs:  []Job{{World: "wdag", Params: "max_n=400", Share: 0.4}, {World: "wbuild", Params: "max_targets=6", Share: 0.25}, {World: "wbuild", Params: "load=minimal,max_targets=6", Share: 0.1}, {World: "wbuild", Params: "mode=faults,load=minimal,max_targets=5,force=extfail,damage=1", Share: 0.25}, {World: "wbuild", Params: "max_targets=10,long=1", Share: 0.25, ThoroughOnly: true}},
 		Level: "exploration",
 		Rule: "seeded random graphs (chain/tree/layers/diamond/random DAG, 1..400 nodes quick, ..3000 thorough), selections closed under dependencies, num_workers 1..8, latencies incl. zero and ties, failure subsets, fail-fast on/off; each run = one seeded schedule of the real walker + worker pool. " +
 			"Checked at every start event: all direct dependencies finished successfully, no second start, running <= num_workers. non-trivial = >=2 callbacks started, >=1 edge and >=1 context switch; distinct = distinct (workload shape hash, schedule trace hash)",
